@@ -81,8 +81,6 @@ func (i *itemsValidator) Validate(index int, data interface{}) *Result {
 		}()
 	}
 
-	tpe := reflect.TypeOf(data)
-	kind := tpe.Kind()
 	var result *Result
 	if i.Options.recycleResult {
 		result = pools.poolOfResults.BorrowResult()
@@ -91,6 +89,18 @@ func (i *itemsValidator) Validate(index int, data interface{}) *Result {
 	}
 
 	path := fmt.Sprintf("%s.%d", i.path, index)
+
+	if data == nil {
+		// a null item has no Go type to inspect: it matches no simple type, unless the items are marked nullable
+		if !i.items.Nullable {
+			result.AddErrors(errors.InvalidType(path, i.in, i.items.Type, nullType))
+		}
+
+		return result
+	}
+
+	tpe := reflect.TypeOf(data)
+	kind := tpe.Kind()
 
 	for idx, validator := range i.validators {
 		if !validator.Applies(i.root, kind) {
